@@ -65,6 +65,9 @@ CHECKS = {
     'C18': ('path exploration of the real reduce_cell (search range uvw=1) on symbolic cells ranging over boxes: argsort as a merge sort with solver-decided comparisons, coplanarity tests as path decisions; unimodularity, metric and minimality obligations decided by z3/cvc5 (QF_NRA)',
             'Bounded model checking over three boxes of cells and both modules: selected combinations are concrete on each path; metric equality, unimodularity and minimality of the first two vectors are decided for every cell of the box. '
             'The default search range uvw=3 (sorting 216 symbolic norms) is outside the bound.', 'Known finding (pinned): rows/columns mix-up in the final a_to_cell step, both modules.', '6/C18'),
+    'C06': ('path exploration of the real genhkl_base/genhkl_unique/genhkl_all on a symbolic reciprocal metric of the Laue family and a symbolic shell (sintl through its C01 summary, comparisons on squares => linear real arithmetic for concrete integer hkl); loops unrolled under a cube precondition; set-equality obligations per leaf decided by z3 (QF_LRA)',
+            'Bounded model checking: 14 Laue classes/settings (symmorphic representative), lattice cube |h|_inf <= 2 (1 for mmm, 2/m, -1 and the rhombohedral settings), every metric of the stated diagonally dominant region, every shell: genhkl_all lists exactly the in-shell allowed box points once, '
+            'genhkl_unique one per Laue family; about 2700 paths in the quick tier (the triclinic class stops at its path budget and is reported non-exhaustive).', 'Ordering of the rows is not decided here (argsort in membership mode); reflection conditions are C05.', '6/C05-C06'),
 }
 NA_REASON = {}
 
